@@ -225,6 +225,11 @@ func runC15(c *core.Ctx) {
 			win{"ends-one-second-after-start", wide0, s.Add(time.Second)},
 			win{"begins-at-start", s, wide1},
 			win{"begins-one-second-after-start", s.Add(time.Second), wide1},
+			win{"begins-half-a-second-after-start", s.Add(500 * time.Millisecond), wide1},
+			win{"begins-a-nanosecond-after-start", s.Add(time.Nanosecond), wide1},
+			win{"ends-half-a-second-before-start", wide0, s.Add(-500 * time.Millisecond)},
+			win{"ends-a-nanosecond-before-start", wide0, s.Add(-time.Nanosecond)},
+			win{"ends-half-a-second-after-start", wide0, s.Add(500 * time.Millisecond)},
 			win{"empty", s.Add(time.Second), s},
 			win{"reversed", wide1, wide0},
 			win{"between-first-and-last-start", starts[0], starts[len(starts)-1]},
